@@ -211,6 +211,26 @@ type TaskInfo struct {
 
 const never = int64(1<<62 - 1)
 
+// stepWaitSilence: see the scheduler loop.
+const stepWaitSilence = 5 * time.Microsecond
+
+const (
+	waitEvent = iota
+	waitHorizon
+	waitProbe
+)
+
+//go:norace
+func (s *Sim) hasStepWaiters() bool {
+	for _, t := range s.tasks {
+		if t.state == stWaitStep {
+			return true
+		}
+	}
+
+	return false
+}
+
 // Run executes main as task 0 under the scheduler and returns when every task has
 // finished, the horizon was reached or the run was aborted. It must be called from the
 // root goroutine of a testing/synctest bubble.
@@ -254,18 +274,33 @@ func Run(cfg Config, ch *Choices, main func()) *Result {
 				break
 			}
 
-			if s.promoteStepWaiters(true) {
-				continue
-			}
-
 			s.quiescents++
 			s.mix(0x51, uint64(s.now()))
 			s.progressStep = s.step
 
-			ev, ok := eventWait(s, horizon)
-			if !ok {
+			// An actor waiting for "n more operations" must not wait for ever when the
+			// system has gone silent: if nothing becomes runnable for stepWaitSilence of
+			// simulated time, the earliest such actor is released.
+			var probe *time.Timer
+
+			if s.hasStepWaiters() {
+				probe = time.NewTimer(stepWaitSilence)
+			}
+
+			ev, what := eventWait(s, horizon, probe)
+
+			if probe != nil {
+				probe.Stop()
+			}
+
+			if what == waitHorizon {
 				s.horizonHit = true
 				break
+			}
+
+			if what == waitProbe {
+				s.promoteStepWaiters(true)
+				continue
 			}
 
 			s.apply(ev)
